@@ -801,7 +801,7 @@ impl Case {
                     if exit_nonzero(&r) {
                         out.push(Finding {
                             oracle: "c17.files_mode_failed".into(),
-                            detail: format!("{:?} {:?}", r.exit, r.logs.first()),
+                            detail: format!("{:?} {:?}", r.exit, r.logs.iter().find(|l| l.0 == "ERROR")),
                         });
                     } else {
                         let got = final_bytes.unwrap_or_default();
@@ -829,7 +829,7 @@ impl Case {
                     } else if exit_nonzero(&r) {
                         out.push(Finding {
                             oracle: "c17.stdin_mode_failed".into(),
-                            detail: format!("{:?} {:?}", r.exit, r.logs.first()),
+                            detail: format!("{:?} {:?}", r.exit, r.logs.iter().find(|l| l.0 == "ERROR")),
                         });
                     } else if &r.stdout != bytes {
                         out.push(Finding {
@@ -856,9 +856,31 @@ impl Case {
         }
         // each file alone: its own pristine invocation
         let mut alone: Vec<(Scenario, RunResult)> = vec![];
+        let mut missing_template: Option<(usize, RunResult)> = None;
+        let mut missing_run = 0;
         for i in 0..self.files.len() {
             let sc = self.alone(i);
+            // wide batches of non-existent paths: the alone invocation of a missing file differs
+            // from that of another missing file only by the path it names; after the first four,
+            // the result is derived from the first one instead of being run again
+            if !self.files[i].exists {
+                if let (true, Some((t, tr))) = (missing_run >= 4, &missing_template) {
+                    let from = self.files[*t].path.clone();
+                    let to = self.files[i].path.clone();
+                    let mut r = tr.clone();
+                    for l in r.logs.iter_mut() {
+                        l.1 = l.1.replace(&from, &to);
+                    }
+                    r.files.clear();
+                    alone.push((sc, r));
+                    continue;
+                }
+                missing_run += 1;
+            }
             let r = self.run(&sc, stats);
+            if !self.files[i].exists && missing_template.is_none() {
+                missing_template = Some((i, r.clone()));
+            }
             if r.exit == Exit::Timeout || abnormal(&r) || r.exit == Exit::Budget {
                 if let Exit::Broken(m) = &r.exit {
                     return Verdict::HarnessError(format!("alone run: {m}"));
